@@ -95,6 +95,7 @@ func (g *Engine) registerHashIntrinsics() {
 			continue
 		}
 		I[alg.pkg+".New"] = func(e *Exec, fn *ssa.Function, a []Value, pos token.Pos) Value {
+			e.allocEvent(e.eng.pos(pos) + " " + alg.pkg + ".New")
 			return Iface{t: dt, v: e.newAbsHash(alg.name)}
 		}
 		recv := "(*" + alg.pkg + ".digest)."
@@ -122,6 +123,7 @@ func (g *Engine) registerHashIntrinsics() {
 		}
 		I[recv+"MarshalBinary"] = func(e *Exec, fn *ssa.Function, a []Value, pos token.Pos) Value {
 			h := a[0].(*AbsHash)
+			e.allocEvent(e.eng.pos(pos) + " MarshalBinary")
 			o := e.newBObj(e.tb.K(64, uint64(h.msize)), h.msize, "marshal")
 			o.base = e.tb.FreshArr("msh") // opaque content
 			if e.marshals == nil {
